@@ -47,10 +47,7 @@ impl Parser {
     pub fn parse(&mut self, query: Vec<String>, debug: bool) -> Result<Query, String> {
         let mut lexer = Lexer::new(query);
         while let Some(lexem) = lexer.next_lexem() {
-            match lexem {
-                Lexem::String(s) if s.is_empty() => {}
-                _ => self.lexems.push(lexem) 
-            }            
+            self.lexems.push(lexem);
         }
 
         if debug {
